@@ -181,7 +181,7 @@ theorem noTrack_invalidateTrackable {off} {s : St} (h : InvX off s) (t : Nat) :
   have h0 : InvX off s0 := by
     have := good_invalidateTrackable h t
     subst hs0
-    refine ⟨h.keys, h.lt, h.ok, h.disj, h.himpl, ?_, h.fwdC, h.noerr⟩
+    refine ⟨h.keys, h.lt, h.ok, h.disj, h.himpl, ?_, h.fwdC, h.noerr, h.own⟩
     intro j w hw
     simp only [aget_amap] at hw
     cases hj : aget s.S j with
